@@ -140,6 +140,7 @@ class MethodWalk:
             r, pth = flow.access_path(g, t["args"][0], extra_transparent=ADAPT, adapters=ad)
             self.loops[head] = {"root": r, "path": pth, "some": some, "none": none, "adapters": [a for a in ad if not ADAPT.search(a)], "t": t}
         self.visits = []   # (bb, kind, name, chain, terminator) kind: method | token | helper
+        self.opaque = []   # (bb, callee, chain) workspace calls that take part of the node and are not understood
         names = set(gr.methods)
         for bi, t in g.calls():
             c = t.get("callee") or ""
@@ -159,6 +160,12 @@ class MethodWalk:
             if c in closure_takers:
                 self._inline_closures(bi, t)
                 continue
+            if not (helpers and c in helpers) and (c.startswith("veryl_") or c.startswith("<veryl_")) and not re.search(r"::(clone|as_ref|deref|borrow|into|from|first|last|text|is_\w+|len|iter)$", c):
+                # a workspace function the engine knows nothing about receives part of the node: what it does with it is unknown
+                for a in t["args"]:
+                    ch = self.chain_of(a)
+                    if ch is not None:
+                        self.opaque.append((bi, c, ch))
             if helpers and c in helpers:
                 for k, a in enumerate(t["args"]):
                     spec = helpers[c].get(k + 1)
@@ -396,6 +403,11 @@ def check_walker(gr, fn_path, node, arg_local=None, allow_missing=(), impl_prefi
     for ch, child, ctxs, gates in items:
         if not gates:
             other = sorted({v[2] for v in mw.visits if v[3] == ch})
+            via = sorted({c.split("::")[-1] for b, c, och in mw.opaque if ch[:len(och)] == och})
+            if via:
+                und.append("child `%s` is not visited directly; the node part containing it is handed to %s, which the engine does not follow" % (".".join(ch), via))
+                prev = None
+                continue
             problems.add("unvisited", ch, "child `%s` (%s) is never visited%s" % (".".join(ch), child, " (only through %s)" % other if other else ""))
             prev = None
             continue
